@@ -61,6 +61,11 @@ func (v *Vue) evalInclude(ctx VueContext, node *html.Node, vars map[string]any, 
 	}
 
 	// Validate and process template tag
+	// Shorthand component tags are valid inside components too.
+	if err := v.resolveComponentTags(compDom); err != nil {
+		return nil, fmt.Errorf("error in %s (included from %s): %w", name, ctx.FormatTemplateChain(), err)
+	}
+
 	assignStableSeenAttrs("include:"+name, compDom)
 
 	processedDom, err := v.evalTemplate(ctx, compDom, ctx.stack.EnvMap(), depth+1)
